@@ -319,6 +319,41 @@ type Result struct {
 	// ZeroDivisor: some Div / DivUnchecked / Inverse divides by zero under this assignment
 	// (a divisor that is zero under every assignment may be folded to the constant 0 by the builders).
 	ZeroDivisor bool
+	// ZeroDivisorAt: indices of the instructions that divide by zero under this assignment
+	ZeroDivisorAt []int
+}
+
+// DivisorIdenticallyZero reports whether some division of the program has a divisor that is
+// zero under in and under nTry further assignments that keep the compile-time constants
+// (Const inputs, literals) and redraw every variable input: such a divisor does not depend
+// on the witness, and a builder that folded it to the constant 0 refuses the circuit at
+// compile time ("div by constant(0)").  Deliberately semantic — it does not model which
+// expressions the builders fold (x·0, x−x, And(0,x), …), only what they could fold.
+func (p *Program) DivisorIdenticallyZero(in []*big.Int, mod *big.Int, draw func() *big.Int, nTry int) bool {
+	cand := map[int]bool{}
+	for _, i := range p.Eval(in, mod).ZeroDivisorAt {
+		cand[i] = true
+	}
+	for t := 0; t < nTry && len(cand) > 0; t++ {
+		v := make([]*big.Int, len(in))
+		for i := range in {
+			if p.Inputs[i] == Const || (i < len(p.Lits) && p.Lits[i] != nil) {
+				v[i] = in[i]
+			} else {
+				v[i] = draw()
+			}
+		}
+		now := map[int]bool{}
+		for _, i := range p.Eval(v, mod).ZeroDivisorAt {
+			now[i] = true
+		}
+		for i := range cand {
+			if !now[i] {
+				delete(cand, i)
+			}
+		}
+	}
+	return len(cand) > 0
 }
 
 func isBool(v *big.Int) bool { return v.Sign() == 0 || (v.IsInt64() && v.Int64() == 1) }
@@ -356,6 +391,7 @@ func (p *Program) Eval(in []*big.Int, mod *big.Int) *Result {
 		case "Div", "DivUnchecked":
 			if a[1].Sign() == 0 {
 				res.ZeroDivisor = true
+				res.ZeroDivisorAt = append(res.ZeroDivisorAt, idx)
 				if isConst[ins.Args[1]] {
 					res.ConstZeroDivisor = true
 				}
@@ -363,6 +399,7 @@ func (p *Program) Eval(in []*big.Int, mod *big.Int) *Result {
 		case "Inverse":
 			if a[0].Sign() == 0 {
 				res.ZeroDivisor = true
+				res.ZeroDivisorAt = append(res.ZeroDivisorAt, idx)
 				if isConst[ins.Args[0]] {
 					res.ConstZeroDivisor = true
 				}
